@@ -20,7 +20,15 @@ namespace vf { namespace router {
 using namespace tulz;
 
 // ---------------------------------------------------------------- key universe and patterns
-inline const std::vector<std::string> &names() { static const std::vector<std::string> n{"a", "b", "ab", "a.b", ".*", ""}; return n; }
+// the first six names are the adversarial ones; n06..n63 exist for WIDE trees (more than 32 / 48 children under one node)
+inline const std::vector<std::string> &names() {
+    static const std::vector<std::string> n = [] {
+        std::vector<std::string> v{"a", "b", "ab", "a.b", ".*", ""};
+        for (int i = 6; i < 64; ++i) { char b[8]; snprintf(b, sizeof b, "n%02d", i); v.push_back(b); }
+        return v;
+    }();
+    return n;
+}
 constexpr int MAXDEPTH = 3;
 
 struct Rx { const char *text; bool (*match)(const std::string &); };
@@ -36,6 +44,8 @@ inline const std::vector<Rx> &regexes() {
         {"b", [](const std::string &s) { return s == "b"; }},
         {"", [](const std::string &s) { return s.empty(); }},
         {"\\.\\*", [](const std::string &s) { return s == ".*"; }},
+        {"n.*", [](const std::string &s) { return !s.empty() && s[0] == 'n'; }},
+        {"n[0-9]+", [](const std::string &s) { return s.size() >= 2 && s[0] == 'n' && s.find_first_not_of("0123456789", 1) == std::string::npos; }},
     };
     return r;
 }
@@ -113,8 +123,8 @@ template <> struct Sig<int, const std::string &> { static constexpr const char *
 template <> struct Sig<Payload> { static constexpr const char *name = "sig_class_by_value"; template <class R> static std::pair<size_t, std::string> notify(R &r, const RoutingKey &k, int s) { return {r.template notify<Payload>(k, Payload(s)), render(Payload(s))}; } };
 
 // ---------------------------------------------------------------- the runner
-enum K { SUBSCRIBE = 0, SUBSCRIBE_SELFVIEW, UNSUBSCRIBE, SELF_INVALIDATE_NEXT, NOTIFY, SHRINK, SHRINK_ALL, EXISTS, DEPTH, NOTIFY_CONCRETE, SHRINK_DERIVED, NK };
-inline const char *kname(int k) { static const char *n[] = {"subscribe", "subscribe_selfview", "unsubscribe", "self_invalidate_next", "notify", "shrink", "shrink_all", "exists", "depth", "notify_concrete", "shrink_derived"}; return n[k]; }
+enum K { SUBSCRIBE = 0, SUBSCRIBE_SELFVIEW, UNSUBSCRIBE, SELF_INVALIDATE_NEXT, NOTIFY, SHRINK, SHRINK_ALL, EXISTS, DEPTH, NOTIFY_CONCRETE, SHRINK_DERIVED, SUBSCRIBE_MANY, UNSUBSCRIBE_SIBLINGS, NK };
+inline const char *kname(int k) { static const char *n[] = {"subscribe", "subscribe_selfview", "unsubscribe", "self_invalidate_next", "notify", "shrink", "shrink_all", "exists", "depth", "notify_concrete", "shrink_derived", "subscribe_many_siblings", "unsubscribe_all_siblings"}; return n[k]; }
 
 struct ObsRec { int id; Key key; bool subscribed = true, valid = true, selfview = false, pending_self = false; };
 struct Shared { std::vector<std::pair<int, std::string>> log; std::vector<bool> self_inval; };
@@ -130,8 +140,16 @@ template <class Router, class... Args> struct Runner {
     int nameLimit = 6, notifies = 0;
     bool c13 = false, nt = false;
 
+    bool wide = false; size_t maxObs = 24;
+    std::set<Key> uniset;
+    void note_key(const Key &k) {   // wide mode: the universe is what was ever subscribed, its prefixes, and one non-stored neighbour per key
+        if (!wide) return;
+        for (size_t n = 0; n <= k.size(); ++n) { Key pre(k.begin(), k.begin() + (long)n); if (uniset.insert(pre).second) universe.push_back(pre); }
+        if (!k.empty()) { Key nb = k; nb.back() = (nb.back() + 1) % nameLimit; if (uniset.insert(nb).second) universe.push_back(nb); }
+    }
     void build_universe() {
         universe.clear(); universe.push_back({});
+        if (wide) { uniset.clear(); uniset.insert(Key{}); return; }
         for (size_t d = 1; d <= MAXDEPTH; ++d) {
             std::vector<Key> next;
             for (const Key &k : universe) if (k.size() == d - 1) for (int n = 0; n < nameLimit; ++n) { Key c = k; c.push_back(n); next.push_back(c); }
@@ -218,6 +236,7 @@ template <class Router, class... Args> struct Runner {
         }
         for (size_t n = 1; n <= k.size(); ++n) stored.insert(Key(k.begin(), k.begin() + (long)n));
         holds.insert(k);
+        note_key(k);
         return id;
     }
 
@@ -276,7 +295,8 @@ template <class Router, class... Args> struct Runner {
 
     void run(const Case &c) {
         c13 = c.prop == "C13";
-        nameLimit = 3 + (unsigned)hget(c, 2, 3) % 4;     // 3..6 names: small universes make collisions (several observers per key) likely
+        { unsigned sel = (unsigned)hget(c, 2, 3) % 6;     // 3..6 names: small universes make collisions likely; 40 / 64 names: wide trees
+          if (sel < 4) nameLimit = 3 + (int)sel; else { nameLimit = sel == 4 ? 40 : 64; wide = true; maxObs = 220; label("wide_tree"); } }
         build_universe();
         label(Sig<Args...>::name);
         int opno = 0;
@@ -287,7 +307,7 @@ template <class Router, class... Args> struct Runner {
             bool done = true;
             switch (o.k) {
             case SUBSCRIBE: case SUBSCRIBE_SELFVIEW: {
-                if (obs.size() >= 24) { done = false; break; }
+                if (obs.size() >= maxObs) { done = false; break; }
                 Key k = decode_key(o.a, o.b, nameLimit);
                 // construction, not rejection: most new keys are relatives of existing ones, so that siblings, children and
                 // several observers per key are the normal case rather than a coincidence
@@ -302,6 +322,34 @@ template <class Router, class... Args> struct Runner {
                 }
                 int id = subscribe(k, o.k == SUBSCRIBE_SELFVIEW);
                 note("%s: observer %d at %s", when, id, show(k).c_str());
+                break;
+            }
+            case SUBSCRIBE_MANY: {
+                // many siblings under one parent (a fan-out beyond 32 / 48 children is only reachable this way)
+                static const int counts[4] = {10, 34, 50, 60};
+                int want = std::min(counts[(unsigned)o.c % 4], nameLimit);
+                Key parent = obs.empty() ? Key{} : obs[(unsigned)o.a % obs.size()].key;
+                if (!parent.empty() && ((o.c >> 2) & 1)) parent.pop_back();
+                if (parent.size() >= MAXDEPTH) parent.resize(MAXDEPTH - 1);
+                int made = 0;
+                for (int i = 0; i < want && obs.size() < maxObs; ++i) { Key k = parent; k.push_back((int)(((unsigned)o.b + (unsigned)i) % (unsigned)nameLimit)); subscribe(k, false); ++made; }
+                note("%s: %d siblings under %s", when, made, show(parent).c_str());
+                if (made > 32) label("fan_out_over_32"); if (made > 48) label("fan_out_over_48");
+                if (!made) done = false;
+                break;
+            }
+            case UNSUBSCRIBE_SIBLINGS: {
+                if (obs.empty()) { done = false; break; }
+                Key parent = obs[(unsigned)o.a % obs.size()].key; if (!parent.empty()) parent.pop_back();
+                int n = 0;
+                for (auto &r : obs) {
+                    if (!r.subscribed || !r.valid || r.key.size() != parent.size() + 1 || !std::equal(parent.begin(), parent.end(), r.key.begin())) continue;
+                    if ((o.c & 1) && n % 7 == 3) { ++n; continue; }   // optionally leave a few alive
+                    (*handles[(size_t)r.id])->unsubscribe(); r.subscribed = false; ++n;
+                }
+                note("%s: %d observers under %s", when, n, show(parent).c_str());
+                if (n > 32) label("mass_unsubscribe_over_32");
+                if (!n) done = false;
                 break;
             }
             case UNSUBSCRIBE: {
